@@ -34,6 +34,12 @@ func (c *PairingController) Handle(cont util.Container) (util.Container, error) 
 	log.Debug.Println("->   Username:", username)
 	log.Debug.Println("->       LTPK:", publicKey)
 
+	// The key pair of the accessory is stored under the name of the accessory.
+	// A controller can neither replace nor remove it.
+	if e, err := c.database.EntityWithName(username); err == nil && len(e.PrivateKey) > 0 {
+		return nil, fmt.Errorf("Invalid pairing name %s", username)
+	}
+
 	entity := db.NewEntity(username, publicKey, nil)
 
 	out := util.NewTLV8Container()
